@@ -132,6 +132,40 @@ Fixpoint run_until_reg (fuel : nat) (s : state) (t : nat) (oracle : bool) : stat
       end
   end.
 
+(* per-message oracle: [os] says, for the k-th message of the call, whether the kernel takes a write to a
+   dead peer (a TCP write after the FIN succeeds, after the RST it fails: both happen inside one call) *)
+Definition oracle_at (os : list bool) (k : nat) : bool :=
+  match nth_error os k with Some b => b | None => false end.
+
+Definition msg_index (s : state) (t n0 : nat) : nat :=
+  match threads s t with Some th => n0 - length (tmsgs th) | None => 0 end.
+
+Fixpoint run_thread_o (fuel : nat) (s : state) (t n0 : nat) (os : list bool) : state :=
+  match fuel with
+  | 0 => s
+  | S f => match thread_step s t (oracle_at os (msg_index s t n0)) with
+           | None => s
+           | Some s' => run_thread_o f s' t n0 os
+           end
+  end.
+
+Fixpoint run_until_reg_o (fuel : nat) (s : state) (t n0 : nat) (os : list bool) : state :=
+  match fuel with
+  | 0 => s
+  | S f =>
+      match threads s t with
+      | Some th =>
+          match tpc th with
+          | PReg _ _ | PDone _ => s
+          | _ => match thread_step s t (oracle_at os (msg_index s t n0)) with
+                 | Some s' => run_until_reg_o f s' t n0 os
+                 | None => s
+                 end
+          end
+      | None => s
+      end
+  end.
+
 Definition res_bool (r : option res) : option bool :=
   match r with Some ROk => Some true | Some RErr => Some false | None => None end.
 
@@ -144,11 +178,17 @@ Definition live_conn (s : state) (p : nat) : option nat :=
                  end) (table s p).
 
 (* result of one operation: new state, result of a send that returned, skipped? *)
-Definition exec (x : xstate) (o : op) : xstate * option bool * bool :=
+Definition exec_o (ov : option (list bool)) (x : xstate) (o : op) : xstate * option bool * bool :=
   let s := st x in
+  let orc buf n := match ov with Some l => l | None => repeat buf n end in
   match o with
   | OSend p msgs buf =>
-      let (s', r) := send_call s p msgs buf in (settle (with_st x s'), res_bool r, false)
+      match step s (ASpawn p msgs) with
+      | Some s1 =>
+          let s2 := run_thread_o (send_fuel msgs) s1 (nextt s) (length msgs) (orc buf (length msgs)) in
+          (settle (with_st x s2), res_bool (result s2 (nextt s)), false)
+      | None => (x, None, true)
+      end
   | OSendHold p msgs buf =>
       match held x with
       | Some _ => (x, None, true)
@@ -156,7 +196,7 @@ Definition exec (x : xstate) (o : op) : xstate * option bool * bool :=
           match step s (ASpawn p msgs) with
           | Some s1 =>
               let t := nextt s in
-              let s2 := run_until_reg (send_fuel msgs) s1 t buf in
+              let s2 := run_until_reg_o (send_fuel msgs) s1 t (length msgs) (orc buf (length msgs)) in
               match result s2 t with
               | Some r => (settle (with_st x s2), res_bool (Some r), false)
               | None => (mkX s2 (Some t) (armed x) (blocked x) (auto x) (npeers x) (hreent x), None, false)
@@ -168,7 +208,7 @@ Definition exec (x : xstate) (o : op) : xstate * option bool * bool :=
       match held x with
       | Some t =>
           let msgs := match threads s t with Some th => tmsgs th | None => [] end in
-          let s2 := run_thread (send_fuel msgs) s t buf in
+          let s2 := run_thread_o (send_fuel msgs) s t (length msgs) (orc buf (length msgs)) in
           (settle (mkX s2 None (armed x) (blocked x) (auto x) (npeers x) (hreent x)), res_bool (result s2 t), false)
       | None => (x, None, true)
       end
@@ -270,6 +310,8 @@ Definition exec (x : xstate) (o : op) : xstate * option bool * bool :=
       end
   end.
 
+Definition exec := exec_o None.
+
 (* ---- snapshots ------------------------------------------------------------ *)
 
 Record snap := mkSnap {
@@ -327,24 +369,6 @@ Definition csnapshot (x : xstate) (r : option bool) (sk : bool) : csnap :=
           (map (fun p => map (fun i => count_deliv s p i) (seq 0 (S (incn s p)))) (seq 0 (npeers x)))
           (length (dispatched s)) 0.
 
-(* TCP: whether the kernel took a write to a dead peer is read off the observed result *)
-Definition with_buf (o : op) (b : bool) : op :=
-  match o with
-  | OSend p m _ => OSend p m b
-  | OSendHold p m _ => OSendHold p m b
-  | OResume _ => OResume b
-  | _ => o
-  end.
-
-Fixpoint cmodel_run (x : xstate) (ops : list op) (obs : list csnap) : list csnap :=
-  match ops with
-  | [] => []
-  | o :: r =>
-      let b := match obs with ob :: _ => match cres ob with Some true => true | _ => false end | [] => false end in
-      let '(x', res, sk) := exec x (with_buf o b) in
-      csnapshot x' res sk :: cmodel_run x' r (tl obs)
-  end.
-
 (* ---- decidable equalities -------------------------------------------------- *)
 
 Definition ecls_eqb (a b : ecls) : bool :=
@@ -383,6 +407,49 @@ Definition csnap_eqb (a b : csnap) : bool :=
   list_eqb (list_eqb Nat.eqb) (ccalls a) (ccalls b) &&
   list_eqb (list_eqb Nat.eqb) (cdeliv a) (cdeliv b) &&
   (cdisp a =? cdisp b) && (ccorrupt a =? ccorrupt b).
+
+(* TCP: whether the kernel took each write to a dead peer cannot be known from outside. The model is
+   run with every assignment of that bit to the messages of the call (at most 2^3) and the first one
+   whose snapshot equals the observation is taken; on the in-memory transport only "refused" exists. *)
+Fixpoint all_bools (n : nat) : list (list bool) :=
+  match n with
+  | 0 => [[]]
+  | S k => map (cons false) (all_bools k) ++ map (cons true) (all_bools k)
+  end.
+
+Definition op_msgs (x : xstate) (o : op) : nat :=
+  match o with
+  | OSend _ m _ | OSendHold _ m _ => length m
+  | OResume _ => match held x with
+                 | Some t => match threads (st x) t with Some th => length (tmsgs th) | None => 0 end
+                 | None => 0
+                 end
+  | _ => 0
+  end.
+
+Fixpoint pick_oracle (x : xstate) (o : op) (ob : option csnap) (cands : list (list bool))
+  : xstate * csnap :=
+  match cands with
+  | [] => let '(x', res, sk) := exec x o in (x', csnapshot x' res sk)
+  | os :: rest =>
+      let '(x', res, sk) := exec_o (Some os) x o in
+      let sn := csnapshot x' res sk in
+      match rest, ob with
+      | [], _ => (x', sn)
+      | _, Some b => if csnap_eqb sn b then (x', sn) else pick_oracle x o ob rest
+      | _, None => (x', sn)
+      end
+  end.
+
+Fixpoint cmodel_run (x : xstate) (ops : list op) (obs : list csnap) : list csnap :=
+  match ops with
+  | [] => []
+  | o :: r =>
+      let n := op_msgs x o in
+      let cands := if tcp (st x) then all_bools n else [repeat false n] in
+      let (x', sn) := pick_oracle x o (hd_error obs) cands in
+      sn :: cmodel_run x' r (tl obs)
+  end.
 
 (* ---- cases ----------------------------------------------------------------- *)
 
